@@ -1,4 +1,4 @@
-import ShroudVerif.Lemmas.Enum
+import ShroudVerif.Lemmas.EnumBlock
 /-!
 # C11  Enumeration constants keep their C++ values in C and Fortran
 
@@ -58,6 +58,75 @@ theorem int_literal_agrees {env : Env} {e : Expr} (hwf : e.wf = true) {pv v : In
     (hp : pyIntLiteral (printNode e) = some pv) (hv : evalExpr env e = some v) : pv = v :=
   pyInt_sound hwf hp hv
 
+
+/-! ### the emitted file blocks -/
+
+/-- **Block theorem.**  The lines `wrapc.wrap_enum` puts into the header (blank
+    line, `//  scope::Name`, `enum PREFIX_Name {`, one indented enumerator per
+    line with a comma after every one but the last, `};`) and the lines
+    `wrapf.wrap_enum` puts into the module (blank line, `!  enum [class] scope::Name`,
+    `integer(C_INT), parameter :: name = value`), rendered by `write_lines`,
+    read back (`evalBlockC`: comments skipped, `enum identifier {`, a C89
+    enumerator list, `};`; `evalBlockF`: every non-comment line a parameter
+    statement) to exactly the C++ values, for every non-empty enumeration in
+    the accepted grammar. -/
+theorem enum_blocks_preserved (b : BlockCfg) (ms : List Member) (vs : List Int)
+    (hok : EnumOK b.cfg ms) (hen : isIdent b.cfg.ename = true) (hcn : isIdent (cEnumName b.cfg) = true)
+    (hne : ms ≠ []) (h : cxxEnum ms = some vs) :
+    evalBlockC (cBlock b (enumMembers b.cfg ms)) = some vs ∧
+    evalBlockF (fBlock b (enumMembers b.cfg ms)) = some vs := by
+  have hos := enumLoop_ok hok ms (.int 0) (fun _ hm => hm)
+  have hen' := isWord_of_isIdent hen
+  have hne' : enumMembers b.cfg ms ≠ [] := by
+    cases ms with
+    | nil => exact absurd rfl hne
+    | cons m ms' =>
+      obtain ⟨n, oe⟩ := m
+      cases oe with
+      | none => simp [enumMembers, enumLoop]
+      | some e => simp only [enumMembers, enumLoop]; split <;> simp
+  obtain ⟨hC, hF⟩ := enum_values_preserved b.cfg ms vs hok h
+  constructor
+  · unfold evalBlockC
+    rw [parseBlockC_cBlock b (enumMembers b.cfg ms) hne' (fun o ho => (hos o ho).1) hen' hcn]
+    exact hC
+  · unfold evalBlockF
+    rw [fBlock_parse b (enumMembers b.cfg ms) (fun o ho => (hos o ho).2) hen']
+    exact hF
+
+/-- The Fortran block needs no non-emptiness. -/
+theorem enum_fortran_block (b : BlockCfg) (ms : List Member) (vs : List Int)
+    (hok : EnumOK b.cfg ms) (hen : isIdent b.cfg.ename = true) (h : cxxEnum ms = some vs) :
+    evalBlockF (fBlock b (enumMembers b.cfg ms)) = some vs := by
+  unfold evalBlockF
+  rw [fBlock_parse b (enumMembers b.cfg ms) (fun o ho => (enumLoop_ok hok ms (.int 0) (fun _ hm => hm) o ho).2) (isWord_of_isIdent hen)]
+  exact (enum_values_preserved b.cfg ms vs hok h).2
+
+/-! ### the Python wrapper writes the enumerator itself -/
+
+/-- **Python shape theorem.**  The value expression `wrapp.wrap_enum` writes for
+    member `n` (`PyModule_AddIntConstant(m, "n", <expr>)` or
+    `PyLong_FromLong(<expr>)`) names exactly the enumerator `n` of this
+    enumeration in its declaring scope: the constant's value is the one the C++
+    compiler assigned, by construction; nothing is recomputed. -/
+theorem py_value_is_enumerator (b : BlockCfg) (n : Str) : pyDenotes b (pyValueExpr b n) = some n := by
+  have sp : ∀ p x : Str, stripPrefix p (p ++ x) = some x := by
+    intro p x; simp [stripPrefix, startsWith]
+  unfold pyDenotes pyValueExpr
+  split
+  · exact sp _ _
+  · have e1 : castOpen ++ b.nsScope ++ b.cfg.ename ++ "::".toList ++ n ++ [')']
+        = castOpen ++ (b.nsScope ++ ((b.cfg.ename ++ "::".toList) ++ (n ++ [')']))) := by simp
+    rw [e1, sp]
+    simp only [Option.bind_some, sp]
+    simp
+
+/-- one line per member, in order, under the member's own name -/
+theorem py_module_items (b : BlockCfg) (ms : List Member) (h : b.inClass = false) :
+    pyItems b ms = [[], "// enum ".toList ++ b.nsScope ++ b.cfg.ename] ++
+      ms.map (fun m => "PyModule_AddIntConstant(m, \"".toList ++ m.1 ++ "\", ".toList ++ pyValueExpr b m.1 ++ ");".toList) := by
+  simp [pyItems, h]
+
 /-! ### why the two repairs were needed (the observers reject / misread the old text) -/
 
 /-- `1 - -1` used to be written `1--1`: not a C constant expression (`--` is one
@@ -101,5 +170,33 @@ example : (enumMembers exCfg exEnum).map (fun o => (String.ofList o.cname, o.cva
      ("LIB_E_D", some "1-(-1)", "e_d", "1-(-1)"),
      ("LIB_E_F", some "-LIB_E_D/2*(LIB_E_B-3)", "e_f", "-e_d/2*(e_b-3)"),
      ("LIB_E_G", none, "e_g", "-e_d/2*(e_b-3)+1")] := by decide
+
+
+def exBlock : BlockCfg := { cfg := exCfg, nsScope := "ns1::".toList, scopeWord := "class".toList, inClass := false, pyType := [] }
+
+example : evalBlockC (cBlock exBlock (enumMembers exCfg exEnum)) = some [0, 8, 9, 2, -5, -4] ∧
+    evalBlockF (fBlock exBlock (enumMembers exCfg exEnum)) = some [0, 8, 9, 2, -5, -4] :=
+  enum_blocks_preserved exBlock exEnum _ exEnum_ok (by decide) (by decide) (by decide) (by decide)
+
+/-- the C block of that enumeration as written to the header -/
+example : (cBlock exBlock (enumMembers exCfg exEnum)).map String.ofList =
+    ["", "//  ns1::E", "enum LIB_E {", "    LIB_E_A,", "    LIB_E_B = LIB_E_A+8,", "    LIB_E_C,",
+     "    LIB_E_D = 1-(-1),", "    LIB_E_F = -LIB_E_D/2*(LIB_E_B-3),", "    LIB_E_G", "};"] := by decide
+
+/-- An empty enumeration (`enum E {}` is legal C++) is written as `enum LIB_E {` `};`,
+    which is not C (an enumerator list cannot be empty): the block has no reading.
+    This is why `enum_blocks_preserved` asks for a non-empty member list. -/
+theorem empty_enum_c_block_rejected :
+    (cBlock exBlock (enumMembers exCfg [])).map String.ofList = ["", "//  ns1::E", "enum LIB_E {", "};"] ∧
+    evalBlockC (cBlock exBlock (enumMembers exCfg [])) = none := by decide
+
+example : (pyItems exBlock exEnum).map String.ofList =
+    ["", "// enum ns1::E",
+     "PyModule_AddIntConstant(m, \"A\", static_cast<long>(ns1::E::A));",
+     "PyModule_AddIntConstant(m, \"B\", static_cast<long>(ns1::E::B));",
+     "PyModule_AddIntConstant(m, \"C\", static_cast<long>(ns1::E::C));",
+     "PyModule_AddIntConstant(m, \"D\", static_cast<long>(ns1::E::D));",
+     "PyModule_AddIntConstant(m, \"F\", static_cast<long>(ns1::E::F));",
+     "PyModule_AddIntConstant(m, \"G\", static_cast<long>(ns1::E::G));"] := by decide
 
 end Shroud.Enum
